@@ -701,3 +701,83 @@ V('mdd-pair', 'C15', 'breaking',
             self.incref(v)
         return r * u""", """        return r * u""")],
   'R-PAIR/edge-without-ref/dd.mdd.MDD.find_or_add', 'MDD children not counted')
+
+# ------------------------------------------------------------------ R-REORD
+V('reord-cube-undecorated', 'C09', 'breaking',
+  [(B, "    @_try_to_reorder\n    def cube(", "    def cube(")],
+  'R-REORD/decorator-missing/dd.bdd.BDD.cube', 'cube loses its decorator')
+V('reord-ite-undecorated', 'C09', 'breaking',
+  [(B, "    @_try_to_reorder\n    def ite(", "    def ite(")],
+  'R-REORD/decorator-missing/dd.bdd.BDD.ite', 'ite loses its decorator')
+V('reord-new-raw-entry', 'C09', 'breaking',
+  [(A, """        r = self._bdd.cube(dvars)
+        return self._wrap(r)""", """        r = self._bdd.true
+        for var, val in dvars.items():
+            lit = self._bdd.find_or_add(
+                self._bdd.vars[var], -1, 1)
+            r = self._bdd.ite(lit if val else -lit, r, -1)
+        return self._wrap(r)""")],
+  'R-REORD/raw-entry/dd.autoref.BDD.cube', 'autoref.cube rebuilt on raw calls')
+V('reord-no-rearm', 'C09', 'breaking',
+  [(B, """        # enable reordering requests
+        bdd._last_len = GROWTH_FACTOR * len_after
+        return r""", """        return r""")],
+  'R-REORD/protocol', 'reordering stays off after the first request')
+V('reord-no-disable', 'C09', 'breaking',
+  [(B, """        bdd._last_len = None
+        reorder(bdd)""", """        reorder(bdd)""")],
+  'R-REORD/protocol', 'sifting with requests enabled')
+V('reord-retry-outside-context', 'C09', 'breaking',
+  [(B, """        with _ReorderingContext(bdd):
+            r = func(
+                bdd,
+                *args, **kwargs)""", """        r = func(
+            bdd,
+            *args, **kwargs)""")],
+  'R-REORD/protocol', 'retry outside the nesting context')
+V('reord-exit-no-restore', ['C09', 'C17'], 'breaking',
+  [(B, """        self.bdd._reordering_context = self.nested
+        not_nested = (
+            ex_type is _NeedsReordering and
+            not self.nested)
+        if not_nested:
+            return True""", """        not_nested = (
+            ex_type is _NeedsReordering and
+            not self.nested)
+        if not_nested:
+            self.bdd._reordering_context = self.nested
+            return True
+        if ex_type is None:
+            self.bdd._reordering_context = self.nested""")],
+  'R-REORD/context/dd.bdd._ReorderingContext.__exit__/restore',
+  'flag not restored when another exception passes through')
+V('reord-exit-nested-serves', 'C09', 'breaking',
+  [(B, """        not_nested = (
+            ex_type is _NeedsReordering and
+            not self.nested)""", """        not_nested = (
+            ex_type is _NeedsReordering)""")],
+  'R-REORD/context/dd.bdd._ReorderingContext.__exit__/suppress',
+  'nested calls swallow the request')
+V('reord-request-late', ['C09'], 'breaking',
+  [(B, """        _request_reordering(self)
+        if i < 0:
+            raise ValueError(
+                f'The given level: {i = } < 0')""", """        if i < 0:
+            raise ValueError(
+                f'The given level: {i = } < 0')"""),
+   (B, """        self._min_free = self._next_free_int(u)
+        # increment reference counters""", """        self._min_free = self._next_free_int(u)
+        _request_reordering(self)
+        # increment reference counters""")],
+  'R-REORD/request/dd.bdd.BDD.find_or_add', 'request raised after the insert')
+V('reord-benign-rename-flag', 'C09', 'benign',
+  [(B, """        not_nested = (
+            ex_type is _NeedsReordering and
+            not self.nested)
+        if not_nested:
+            return True""", """        outermost_request = (
+            not self.nested and
+            ex_type is _NeedsReordering)
+        if outermost_request:
+            return True""")],
+  None, 'renamed local, operands exchanged')
